@@ -17,14 +17,14 @@ UNIT = dict(
     files={"lib": CB + "lib.rs", "circuit": CB + "circuit.rs", "error": CB + "error.rs"},
     default_file="lib",
     verus_flags=["--no-erasure-check"],
-    rules=[("R1",), ("R2",)],
+    rules=[("R1",), ("R2",), ("sub", "R9-paths", r"std::sync::atomic::(AtomicU8|Ordering)\b", r"\1", -1)],
     extra_params=["clk", "tr"],
     fns={
         "CircuitState::from_u8": dict(file="circuit"),
-        "CircuitBreaker::new": dict(rules=[("sub", "R9-paths", r"std::sync::atomic::AtomicU8", "AtomicU8", 1)]),
+        "CircuitBreaker::new": dict(),
         "CircuitBreaker::with_fallback": dict(),
         "CircuitBreaker::clone@Clone": dict(),
-        "CircuitBreaker::state_sync": dict(rules=[("sub", "R9-paths", r"std::sync::atomic::Ordering", "Ordering", 1)]),
+        "CircuitBreaker::state_sync": dict(),
         "CircuitBreaker::is_open": dict(),
         "CircuitBreaker::force_open": WRAP("force_open"),
         "CircuitBreaker::force_closed": WRAP("force_closed"),
@@ -34,7 +34,7 @@ UNIT = dict(
         "CircuitBreaker::poll_ready@Service": dict(rules=[("R10p", "CircuitBreakerError::Inner")]),
         "CircuitBreaker::call@Service": dict(rules=CALL),
         "CircuitBreakerWithFallback::clone@Clone": dict(rules=[("sub", "R9-paths", r"std::marker::PhantomData", "core::marker::PhantomData", 1)]),
-        "CircuitBreakerWithFallback::state_sync": dict(rules=[("sub", "R9-paths", r"std::sync::atomic::Ordering", "Ordering", 1)]),
+        "CircuitBreakerWithFallback::state_sync": dict(),
         "CircuitBreakerWithFallback::is_open": dict(),
         "CircuitBreakerWithFallback::force_open": WRAP("force_open"),
         "CircuitBreakerWithFallback::force_closed": WRAP("force_closed"),
